@@ -17,7 +17,7 @@ def run(chk):
                        'non-trivial = at least one bundle queued; distinct by event lists')
     sims = []
     for i in range(n):
-        sim, sent, meta = sc.run_scenario(rng, 'transfer', tier)
+        sim, sent, meta = sc.run_scenario(rng, 'transfer', tier, nqueries=rng.choice([0, 2, 6]), npops=rng.choice([0, 1, 2, 6]))
         nontriv = bool(sent['a'] or sent['b'])
         chk.case({'cfg': [meta['cfg_a'], meta['cfg_b']], 'lens': [[len(d) for d in sent['a']], [len(d) for d in sent['b']]],
                   'events': len(sim.log), 'h': hash(json.dumps(sim.a.events) + json.dumps(sim.b.events))}, nontrivial=nontriv, sample=(i < 3))
@@ -27,6 +27,16 @@ def run(chk):
         bad = tm.mon_c01(sim, sent, expect_complete=meta['quiescent'])
         for (i2, who, ev, cls) in tm.escapes(sim):
             bad.append(('C01:escape-%s-%s' % (cls, ev['e']), 'exception %s escapes the %s callback of %s' % (cls, ev['e'], who)))
+        # what the user can see and take between the segments of a transfer: only completed bundles
+        for (sig, what) in tm.mon_c18_queues(sim):
+            if sig in ('C18:rx-queue-mismatch', 'C18:pop-twice'):
+                bad.append((sig.replace('C18:', 'C01:'), what))
+        for ep in sim.eps():
+            peer = 'b' if ep.name == 'a' else 'a'
+            for tid, d in ep.popped.items():
+                if 1 <= tid <= len(sent[peer]) and d != sent[peer][tid - 1]:
+                    bad.append(('C01:popped-incomplete-or-wrong-data', '%s popped transfer %d and got %d octets, the bundle has %d'
+                                % (ep.name, tid, len(d), len(sent[peer][tid - 1]))))
         sc.report(chk, 'C01', bad, sim, sent, meta)
         sims.append((sim, 'transfer %d' % i))
         if len(sims) >= 40:
